@@ -26,7 +26,7 @@ type N struct {
 
 // Expression kinds:
 //  nil true false int(I) flt(I=bits) str(S) id(S) list(Ns) map(Ns k,v,...)
-//  bin(S op; 2) not(1) neg(1) and(2) or(2) tern(3) coal(2)
+//  bin(S op; 2) not(1) neg(1) and(2) or(2) tern(3) coal(2) chain(S && or ||; Ns >= 2 operands, no inner parentheses)
 //  call(S name; Ns args; B spread) acall(Ns[0] callee, rest args; B spread)
 //  fn(S name|""; Ps params; B vararg; Ss[0] body)
 //  idx(2) mem(Ns[0]; S) len(1) in(2)
@@ -321,6 +321,13 @@ func ExprString(e *N) string {
 		return "(" + ExprString(e.Ns[0]) + " && " + ExprString(e.Ns[1]) + ")"
 	case "or":
 		return "(" + ExprString(e.Ns[0]) + " || " + ExprString(e.Ns[1]) + ")"
+	case "chain":
+		// S is && or ||: the operands in a row, parentheses around the whole chain only
+		parts := make([]string, len(e.Ns))
+		for i, k := range e.Ns {
+			parts[i] = ExprString(k)
+		}
+		return "(" + strings.Join(parts, " "+e.S+" ") + ")"
 	case "tern":
 		return "(" + ExprString(e.Ns[0]) + " ? " + ExprString(e.Ns[1]) + " : " + ExprString(e.Ns[2]) + ")"
 	case "coal":
